@@ -133,6 +133,7 @@ func NewSafeMapDataProvider[T any](m map[string]T) DataProvider {
 
 type EmptyDataProvider struct {
 	Underlying any
+	tag        *string
 }
 
 func (e *EmptyDataProvider) Get(key string) any {
@@ -140,8 +141,19 @@ func (e *EmptyDataProvider) Get(key string) any {
 }
 
 func (e *EmptyDataProvider) GetByField(field reflect.StructField, fallback string) (any, string) {
-	// no value, but the key (and so the issue path) is the documented one: zog tag, else schema key
-	return nil, GetKeyFromField(field, fallback, nil)
+	// no value, but the key (and so the issue path) is the documented one: the tag of the source
+	// the (absent) record belongs to, else zog tag, else schema key
+	return nil, GetKeyFromField(field, fallback, e.tag)
+}
+
+// SourceTag returns the struct tag this provider resolves field names with (nil: zog tag / schema key only)
+func (e *EmptyDataProvider) SourceTag() *string {
+	return e.tag
+}
+
+// SetSourceTag makes the provider resolve field names with the given struct tag
+func (e *EmptyDataProvider) SetSourceTag(tag *string) {
+	e.tag = tag
 }
 
 func (e *EmptyDataProvider) GetNestedProvider(key string) DataProvider {
